@@ -45,6 +45,8 @@ FLOATS = ["0.0", "0.5", "1.0", "2.0", "30.0", "-1.0"]
 USER_FUNCS = {
     "scale_it": {"metadata_type": "add_cpp_function", "name": "scale_it", "include_files": ["cmath"], "arguments": ["value", "factor"],
                  "code": ["double tmp = value * factor;", "double result = tmp + 0.0;"], "return_type": "double"},
+    "twice_it": {"metadata_type": "add_cpp_function", "name": "twice_it", "include_files": [], "arguments": ["x"],
+                 "code": ["double result = x * 2;"], "return_type": "double"},
     "pair_vec": {"metadata_type": "add_cpp_function", "name": "pair_vec", "include_files": ["vector"], "arguments": ["value"],
                  "code": ["std::vector<double> result;", "result.push_back(value);", "if (value > 0) result.push_back(value * 2);"],
                  "return_type": "double", "return_is_collection": True},
@@ -242,6 +244,17 @@ class QGen:
             self.occ.append({"coll": "EventInfo", "bank": "EventInfo", "type": "xAOD::EventInfo", "uncond": self.uncond})
             self.shape.append("singleton")
             return f'{evar}.EventInfo("EventInfo").{r.choice(["runNumber", "eventNumber"])}()', "double"
+        if depth > 0 and r.random() < 0.10:
+            # the idiomatic guarded First: the condition protects the First() of the same sequence
+            s_, et = self.seq_of_obj(evar, 0, allow_where=r.random() < 0.3)
+            c0 = r.choice(["-1000.0", "0.0", "-1.0"])
+            m = r.choice(DOUBLE_METHODS)
+            self.shape.append("guarded_first")
+            txt = (f"({c0} if {s_}.Count() == 0 else {s_}.First().{m}())" if r.random() < 0.6
+                   else f"({s_}.First().{m}() if {s_}.Count() > 0 else {c0})")
+            if r.random() < 0.6:
+                txt = f"({txt} {r.choice(['/', '*', '+'])} {r.choice(['1000.0', '2.0', '0.5'])})"
+            return txt, "double"
         if k < 0.30 or depth <= 0:
             s, _ = self.seq_of_obj(evar, depth)
             self.shape.append("count")
@@ -267,15 +280,40 @@ class QGen:
                 return f"{s}.First().{r.choice(DOUBLE_METHODS)}()", "double"
             x, kind = self.obj_num(v, et, depth - 1)
             return f"{s}.Select(lambda {v}: {x}).First()", kind
+        if r.random() < 0.5:
+            # conditional at event level, typically guarding a First() that may fault, possibly inside more arithmetic
+            was = self.uncond
+            cond = self.evt_bool(evar, depth - 1)
+            self.uncond = False
+            a, _ = self.evt_num(evar, depth - 1)
+            self.uncond = was
+            c0 = r.choice(["-1000.0", "0.0", "1.0"])
+            self.shape.append("eifexp")
+            txt = f"({c0} if {cond} else {a})" if r.random() < 0.5 else f"({a} if {cond} else {c0})"
+            if r.random() < 0.5:
+                txt = f"({txt} {r.choice(['/', '*', '+'])} {r.choice(['1000.0', '2.0', '0.5'])})"
+            return txt, "double"
         a, _ = self.evt_num(evar, depth - 1)
         b2, _ = self.evt_num(evar, depth - 1)
         self.shape.append("earith")
         return f"({a} {r.choice(['+', '-', '*'])} {b2})", "double"
 
     def evt_bool(self, evar, depth):
+        r = self.r
+        if depth > 0 and r.random() < 0.2:
+            # guard pattern: the right operand is only evaluated when the left one allows it
+            s_, et = self.seq_of_obj(evar, 0, allow_where=False)
+            was = self.uncond
+            self.uncond = False
+            g = f"{s_}.First().{r.choice(DOUBLE_METHODS)}() > {r.choice(FLOATS)}"
+            self.uncond = was
+            self.shape.append("eguard")
+            op = r.choice(["and", "or"])
+            lhs = f"{s_}.Count() > 0" if op == "and" else f"{s_}.Count() == 0"
+            return f"({lhs} {op} {g})"
         a, _ = self.evt_num(evar, max(0, depth - 1))
         self.shape.append("ecmp")
-        return f"{a} {self.r.choice(['>', '>=', '<', '!='])} {self.r.choice(['0', '1', '2', '0.5'])}"
+        return f"{a} {r.choice(['>', '>=', '<', '!='])} {r.choice(['0', '1', '2', '0.5'])}"
 
     def evt_column(self, evar, depth):
         """a column value for one row per event: scalar, 1-D or 2-D"""
@@ -296,7 +334,35 @@ class QGen:
             v = self.var("j")
             was = self.uncond
             self.uncond = False
-            if r.random() < 0.25 and depth > 0:
+            if r.random() < 0.3 and depth > 0:
+                # a chain: the value computed for each object is handed to a second lambda that uses it several times,
+                # once inside a conditionally executed block and once outside
+                x, _ = self.obj_num(v, et, depth - 1, want="double")
+                kf = r.random()
+                if kf < 0.4:
+                    # a call all of whose inputs come from the loop variable (no literal argument)
+                    self.use_func("twice_it")
+                    x = f"twice_it({v}.{r.choice(DOUBLE_METHODS)}())"
+                elif kf < 0.55:
+                    x = f"DeltaR({v}.eta(), {v}.phi(), {v}.m(), {v}.e())"
+                elif kf < 0.75:
+                    self.use_func("scale_it")
+                    x = f"scale_it({v}.{r.choice(DOUBLE_METHODS)}(), {r.choice(FLOATS)})" if r.random() < 0.5 else f"scale_it({x}, 2.0)"
+                w = self.var("v")
+                kk = r.random()
+                if kk < 0.35:
+                    y = f"({w} if {self.evt_bool(evar, 1)} else {w} * 3.0)"
+                elif kk < 0.6:
+                    s3, et3 = self.seq_of_obj(evar, 0, allow_where=False)
+                    t3 = self.var("t")
+                    y = f"({s3}.Where(lambda {t3}: {t3}.pt() > {w}).Count() + {w})"
+                elif kk < 0.8:
+                    y = f"({w} if {w} > {r.choice(FLOATS)} else {w} * 3.0)"
+                else:
+                    y = f"({w} + {w})"
+                self.shape.append("col1d_chain")
+                txt = f"{s}.Select(lambda {v}: {x}).Select(lambda {w}: {y})"
+            elif r.random() < 0.25 and depth > 0:
                 # per-object value that needs the event again (inner loop over another collection)
                 s2, et2 = self.seq_of_obj(evar, depth - 1)
                 v2 = self.var("t")
